@@ -86,7 +86,11 @@ contract(
     },
     loops={1: Loop(over='other_bonds', modifies=[], invariant=[
         "all(not member(x, self.terminal_bonds) and member(x, other_bonds) for x in clean_bonds)"])},
-    opaque=['complementary', 'is_descriptor', 'ends_in_digit'], abstract=['kind_ok'], heap_invariants=['descriptors', 'fragid'],
+    opaque=['complementary', 'is_descriptor', 'ends_in_digit', 'kind_ok'], heap_invariants=['descriptors', 'fragid'],
+    wf_all_graphs=True,
+    callee_clauses={'merge_graphs': ['implies(has_node(target_graph, n), n in result', 'forall_int(lambda n: has_node(source_graph, n) ==',
+                                     'node_unchanged(source_graph, n)', "'bonding') for j in range", 'edge_unchanged(source_graph, u, v)'],
+                    'find_complementary_bonding_descriptor': ['member(c, ellegible_descriptors) and complementary']},
     examples=_ex_add_fragment,
 )
 
